@@ -73,6 +73,15 @@ pub struct Scenario {
     pub root: BuildNode,
     pub fault: Fault,
     pub fastrand_seed: u64,
+    /// how the stand-in docker answers `rmi --force`: 0 removes, missing image is fine (newer
+    /// CLIs); 1 removes, but a missing image (pack failed before exporting) exits 1 (older
+    /// CLIs); 2 the daemon refuses (exits 1, image stays)
+    #[serde(default)]
+    pub rmi_mode: u8,
+    /// the fixture holds an entry that cannot be copied (a dangling symbolic link): a build with
+    /// a preprocessor then fails while making its private copy
+    #[serde(default)]
+    pub fixture_uncopyable: bool,
 }
 
 const TRICKY: [&str; 14] = [
@@ -189,10 +198,18 @@ fn gen_build(r: &mut Rng, depth: u32) -> BuildNode {
 
 pub fn generate(seed: u64) -> Scenario {
     let mut r = Rng::sub(seed, "e4");
+    let root = gen_build(&mut r, 0);
+    let mut r2 = Rng::sub(seed, "e4-docker");
     Scenario {
-        root: gen_build(&mut r, 0),
+        root,
         fault: Fault::None,
         fastrand_seed: seed ^ 0xfa57,
+        rmi_mode: match r2.below(8) {
+            0 | 1 => 1,
+            2 => 2,
+            _ => 0,
+        },
+        fixture_uncopyable: r2.chance(1, 8),
     }
 }
 
